@@ -24,9 +24,9 @@ func init() {
 		Level: "exploration",
 		Cases: func(t string) int {
 			if t == "thorough" {
-				return 8000
+				return 16000
 			}
-			return 700
+			return 2100
 		},
 		Batch: func(t string) int { return 35 },
 		Floors: []string{"snapshots_compared", "typed_values_retained", "cloned_rows_retained", "uncloned_rows_checked", "writer_inputs_checked", "activity_read_more", "activity_seek", "activity_reset", "activity_close", "activity_other_reader",
